@@ -10,7 +10,7 @@ RULE = ('One evaluation = one seeded scenario on Slurm/SGE/LSF/local pool: arbit
 PROFILE = dict(
     nontrivial_probes=["convergence_checks"],
     backends=["slurm", "slurm", "sge", "lsf", "local", "local"],
-    sizes=[1, 2, 3, 4, 5, 6, 8],
+    sizes=[1, 2, 3, 4, 5, 6, 8, 14],
     lengths=[0, 2, 4, 8, 12],
     cwds=["root"],
     weights=dict(run=2, status=0.3, start=2, finish=2, sched_cancel=0.5, purge=0.5, acct_flush=0.3, modify_source=0.7,
